@@ -160,4 +160,7 @@ def get_ast(func):
         return None
     source = inspect.cleandoc('\n' + rawsource)
     module = ast.parse(source)
-    return module.body[0]
+    node = module.body[0]
+    if not isinstance(node, (ast.FunctionDef, ast.AsyncFunctionDef)):
+        return None
+    return node
